@@ -7,6 +7,15 @@ HERE = os.path.dirname(os.path.dirname(os.path.abspath(__file__)))
 
 # property -> (level, text, note, technique, design_ref)
 CHECKS = {
+    "C01": ("model_checking",
+            "FanIR.tla defines what a derivation is (Valid: every inner node's children are matched by its rule - alternatives, "
+            "concatenations, bounded/open/computed repetitions, literals, class regexes); real runs of plain grammar fuzzing and "
+            "of the evolutionary search over a seeded family of specs rendered from grammar IR are recorded (every operator "
+            "result, population member, emitted solution) and every recorded tree is judged by TLC (Trace_Tree.tla)",
+            "bounded: 60 (quick) / 1200 (thorough) generated specs x settings; computed repetition counts are demanded of "
+            "emitted solutions only (intermediate trees are judged against the grammar as the reader declares it, {1,}); "
+            "trusted: TLC, the IR renderer",
+            "TLA+ definition of derivations evaluated by TLC on trees recorded from real fuzzing/search runs (trace validation)"),
     "C03": ("model_checking",
             "Evaluator.tla (acceptance rule on exact counts, fitness cache, solution set) model-checked by TLC; the full "
             "(h,r,hs,rs) case table written by TLC is replayed on the real Evaluator; real search runs on specs with every "
